@@ -98,7 +98,7 @@ def run(prog: Program, rep, thorough: bool) -> None:
     args = F.row_args(site) if site is not None else {}
     speed_name = LB.speed_name
     env = {'self': selfv, F.P: C.mk_vec(ev, st, prog, 'x', 'y', 'z'), F.V: C.mk_vec(ev, st, prog, 'vx', 'vy', 'vz'),
-           F.t: S('t'), F.a: S('a'), F.rho: S('rho'), 'drag': S('drag'), 'ranges': ev.new_list(st, []),
+           F.t: S('t'), F.a: S('a'), F.rho: S('rho'), 'drag': S('drag'), row_list: ev.new_list(st, [SymObj('earlier_row')]),
            'data_filter': SymObj('data_filter')}
     names_in_block = {n.id for st_ in LB.stmts for n in ast.walk(st_) if isinstance(n, ast.Name)}
     for n in names_in_block:
@@ -171,9 +171,10 @@ def run(prog: Program, rep, thorough: bool) -> None:
                 problems.append(f'when {" and ".join(violated)} {"are" if len(violated) > 1 else "is"} violated the '
                                 f'stated reason is {got_attr}, expected {want_attr} (first violated limit in the '
                                 f'precedence velocity, drop, altitude)')
-            rows = leaf.state.heap[env['ranges'].oid]['$items']
+            rows = leaf.state.heap[env[row_list].oid]['$items'][1:]        # after the row recorded earlier
             if len(rows) != 1:
-                problems.append(f'{len(rows)} rows are appended before the error is raised, expected the violating state')
+                problems.append(f'{len(rows)} rows are appended before the error is raised (a card that already has rows), '
+                                f'expected the violating state')
         elif leaf.kind in ('fall', 'continue'):
             if violated:
                 problems.append(f'no error is raised although {violated} is violated')
@@ -241,7 +242,7 @@ def run(prog: Program, rep, thorough: bool) -> None:
         ta = cfg.nodes[t_].ast
         gd_uses |= {n.id for n in ast.walk(ta) if isinstance(n, ast.Name)} | {norm(n) for n in ast.walk(ta) if isinstance(n, ast.Attribute)}
     recording = set(F.params) - {'self', F.params[1] if len(F.params) > 1 else ''} - {'maximum_range'}
-    rec_derived = set(recording) | {'data_filter', 'min_step', 'ranges'}
+    rec_derived = set(recording) | {'data_filter', 'min_step', row_list}
     leak = sorted(x for x in gd_uses if x.split('.')[0] in rec_derived)
     cd = cfg.control_dependence()
     ctrl = {t for t, _lab in cd[gnode.id]}
